@@ -330,14 +330,16 @@ theorem stepIn_sinv {tx : List TOp} {i : Nat} {t : TOp} {w w' : WState} (h : w.s
   | startDelev ai signer recordOk => exact (stepIn_acct_only (fun op => by simp) h hi).1
   | endDelev ai signer recordOk => exact (stepIn_acct_only (fun op => by simp) h hi).1
 
-/-- every instruction of a committed transaction was accepted on a reached state that satisfies the invariant -/
-theorem runFrom_at_sinv (tx : List TOp) : ∀ (rest : List TOp) (i : Nat) (w w' : WState), tx.drop i = rest →
-    WState.runFrom tx i rest w = some w' → SInv w → (∀ t ∈ rest, t.Ok) →
-    ∀ (j : Nat) (t : TOp), i ≤ j → tx[j]? = some t → ∃ (wj wj' : WState), SInv wj ∧ wj.stepIn tx j t = some wj' := by
+/-- every instruction of a committed transaction was accepted on the state the transaction had reached before it, and that state
+    satisfies the invariant -/
+theorem runFrom_at_sinv (tx : List TOp) (w0 : WState) : ∀ (rest : List TOp) (i : Nat) (w w' : WState), tx.drop i = rest →
+    w0.before tx i = some w → WState.runFrom tx i rest w = some w' → SInv w → (∀ t ∈ rest, t.Ok) →
+    ∀ (j : Nat) (t : TOp), i ≤ j → tx[j]? = some t →
+      ∃ (wj wj' : WState), w0.before tx j = some wj ∧ SInv wj ∧ wj.stepIn tx j t = some wj' := by
   intro rest
   induction rest with
   | nil =>
-    intro i w w' hd h hi _ j t hij hj
+    intro i w w' hd _ h hi _ j t hij hj
     have hlen : tx.length ≤ i := by
       rcases Nat.lt_or_ge i tx.length with h1 | h1
       · have : (tx.drop i).length = tx.length - i := List.length_drop
@@ -349,20 +351,32 @@ theorem runFrom_at_sinv (tx : List TOp) : ∀ (rest : List TOp) (i : Nat) (w w' 
       · rw [List.getElem?_eq_none h1] at hj; cases hj
     omega
   | cons op rest ih =>
-    intro i w w' hd h hi hok j t hij hj
+    intro i w w' hd hbef h hi hok j t hij hj
     obtain ⟨hti, hd'⟩ := drop_cons_facts hd
     simp only [WState.runFrom] at h
     split at h
     · rename_i w1 h1
       rcases Nat.lt_or_ge i j with hlt | hge
-      · exact ih (i + 1) w1 w' hd' h (stepIn_sinv h1 hi (hok op (List.mem_cons_self ..)))
+      · have hlt' : i < tx.length := by
+          rcases Nat.lt_or_ge i tx.length with h2 | h2
+          · exact h2
+          · rw [List.getElem?_eq_none h2] at hti; cases hti
+        have htake : tx.take (i + 1) = tx.take i ++ [op] := by
+          rw [List.take_succ, hti]; rfl
+        have hbef1 : w0.before tx (i + 1) = some w1 := by
+          unfold WState.before at hbef ⊢
+          rw [htake]
+          apply runFrom_snoc tx (tx.take i) 0 w0 w w1 op hbef
+          have : (tx.take i).length = i := by simp [List.length_take]; omega
+          rw [this, Nat.zero_add]; exact h1
+        exact ih (i + 1) w1 w' hd' hbef1 h (stepIn_sinv h1 hi (hok op (List.mem_cons_self ..)))
           (fun t ht => hok t (List.mem_cons_of_mem _ ht)) j t (by omega) hj
       · have : j = i := by omega
         subst this
         rw [hti] at hj
         injection hj with hj
         subst hj
-        exact ⟨w, w1, hi, h1⟩
+        exact ⟨w, w1, hbef, hi, h1⟩
     · cases h
 
 /-! ### the shape of every slot array runs through transactions too -/
